@@ -9,6 +9,7 @@ import J1939.Model.Listener
 import J1939.Lemmas.Tactics
 import J1939.Lemmas.ConstCa
 import J1939.Props.C13
+import J1939.Lemmas.Trace22
 import J1939.Model.Dll22
 namespace J1939.Props.C05
 open J1939 J1939.Gen
@@ -186,6 +187,23 @@ theorem c05_22_pdu2_is_broadcast (cfg : Dll22.Cfg) (s : Dll22.St) (now : Nat) (a
                             (MessageId.ofCanId canId).source_address Const.Addr.GLOBAL data], err := none } := by
   unfold Dll22.notify
   simp [h]
+
+/-- J1939-22, A COMPLETED DESTINATION-SPECIFIC TRANSFER IS HANDED UP WITH ITS SESSION'S DESTINATION — whatever parameter
+    group it carried (a peer may move a PDU2 group in connection mode; it is then still addressed to `dest`, not to
+    everybody): the delivery rule of the ECU (`c05_delivery_rule`) then gives it to exactly the listeners entitled to
+    `dest` -/
+theorem c05_22_tp_delivery_keeps_destination (cfg : Dll22.Cfg) (s : Dll22.St) (now : Nat) (mid : MessageId) (dest : Nat) (f : List Nat)
+    (r : Dll22.Rcv) (session : Nat)
+    (hlen : 12 ≤ f.length) (hc : Tp22.cm_control f = Const.CM22.EOM_STATUS) (hs : Tp22.cm_session f = session)
+    (hsz : Tp22.cm_size f = r.messageSize) (hn : Tp22.cm_segment f = r.numSegments)
+    (hr : s.rcv.get? (Tp22.buffer_hash session mid.source_address dest) = some r) (hd : r.data.length = r.messageSize)
+    (hsrc : mid.source_address ≠ Const.Addr.GLOBAL) :
+    ∀ d ∈ Dll22.deliveries (Dll22.processCm cfg s now mid dest f).outs, d.2.2.2.1 = dest ∧ d.2.1 = r.pgn := by
+  intro d hdm
+  rw [(Dll22.eom22_delivers cfg s now mid dest f r session hlen hc hs hsz hn hr hd hsrc).1] at hdm
+  simp only [List.mem_singleton] at hdm
+  subst hdm
+  exact ⟨rfl, rfl⟩
 
 end J1939.Props.C05
 
